@@ -340,3 +340,59 @@ Definition register_outcome (publish_ok : bool) : bool * bool := (true, publish_
    Cleanup therefore runs after the pipeline's context has been cancelled.  It publishes with a
    context of its own (context.Background()), so what it publishes does not depend on that. *)
 Definition cleanup (pipeline_ctx_cancelled : bool) : list s2d := [clear_msg].
+
+(* ------------------------------------------------------------------ publication over a connection that may break *)
+(* client.Publish (go-redis baseClient.process): the command is attempted up to MaxRetries + 1 times; each
+   attempt takes a connection from the pool, writes the PUBLISH and reads the reply.  What can happen to one
+   attempt (the fault script names the fate of the successive attempts; no entry = the attempt succeeds):
+     FLostBefore  the connection breaks before the server has processed the command (reset / EOF on the
+                  write or on the reply): nothing is delivered, the error is retryable (shouldRetry);
+     FLostAfter   the server processed the command (the subscribers have the message) but the connection
+                  breaks before the reply is read: delivered, and the client retries all the same;
+     FRefused     the server answers with an error reply (-ERR ...): nothing delivered, not retryable.
+   sendToDetector / clearDetector ignore the error Publish returns, so the only thing that matters to the
+   property is what was delivered.  [publish] = the copies of m the server processed, in order. *)
+Inductive fault := FLostBefore | FLostAfter | FRefused.
+
+Fixpoint publish (attempts : nat) (sc : list fault) (m : s2d) : list s2d :=
+  match attempts with
+  | O => []
+  | S n =>
+    match sc with
+    | [] => [m]
+    | FLostBefore :: r => publish n r m
+    | FLostAfter :: r => m :: publish n r m
+    | FRefused :: _ => []
+    end
+  end.
+
+(* the faults of this script are all transient and fewer than the attempts the client makes *)
+Fixpoint survivable (attempts : nat) (sc : list fault) : bool :=
+  match attempts with
+  | O => false
+  | S n =>
+    match sc with
+    | [] => true
+    | FRefused :: _ => false
+    | _ :: r => survivable n r
+    end
+  end.
+
+(* the client's attempt budget: Options().MaxRetries as the constructed client reports it (go-redis
+   normalises the configured value: -1 -> 0, 0 -> 3) plus the first attempt *)
+Definition client_attempts (max_retries : N) : nat := S (N.to_nat max_retries).
+
+(* the detector consuming what was delivered, all at one clock reading *)
+Definition deliver (now : N) (st : dmap) (ms : list s2d) : dmap := fold_left (detector_step now) ms st.
+
+(* PUBLISH commands the server sees for one Publish call *)
+Fixpoint attempts_used (attempts : nat) (sc : list fault) : nat :=
+  match attempts with
+  | O => O
+  | S n =>
+    match sc with
+    | [] => 1
+    | FRefused :: _ => 1
+    | _ :: r => S (attempts_used n r)
+    end
+  end.
